@@ -1000,9 +1000,10 @@ func (x *Exec) forStmt(n *ast.ForStmt, label string, st *State, fr *frame, k fun
 					env.head = headSnap
 					x.useClauses(lc.UseEnd, env, s)
 					for _, c := range lc.Steps {
-						if f, ok := x.clause(c, env); ok {
+						// a step clause may reveal opaque specs: proved unfolded, kept folded (as for invariants at loop entry)
+						if f, keep, ok := x.clauseProved(c, env); ok {
 							x.oblige(s, fmt.Sprintf("step@loop%d", ord), c.Label, n, f)
-							s.assume(f)
+							s.assume(keep)
 						}
 					}
 				}
@@ -1320,9 +1321,9 @@ func (x *Exec) rangeStmt(n *ast.RangeStmt, label string, st *State, fr *frame, k
 			env := x.specEnvAt(s, n.Body.Rbrace)
 			env.head = headSnap
 			for _, c := range lc.Steps {
-				if f, ok := x.clause(c, env); ok {
+				if f, keep, ok := x.clauseProved(c, env); ok {
 					x.oblige(s, fmt.Sprintf("step@loop%d", ord), c.Label, n, f)
-					s.assume(f)
+					s.assume(keep)
 				}
 			}
 			nx := Term{S: app("+", i.S, "1"), Sort: "Int", T: intT}
